@@ -36,7 +36,7 @@ CONFIG = {
     }],
     "trusted_base": [
         "Lean 4.33.0 kernel; axioms propext, Classical.choice, Quot.sound",
-        "hand-written models J5V/Pipe/{Path,Names,Split,Walk,Flatten,List,ListRequest,Client,Entity,Swagger,SwaggerDoc,Service}.lean of internal/j5s/j5convert/service.go (path rewrite), "
+        "hand-written models J5V/Pipe/{Path,Names,Split,Walk,Flatten,List,ListRequest,Client,Entity,Swagger,SwaggerDoc,SwaggerProto,Service}.lean of internal/j5s/j5convert/service.go (path rewrite), "
         "internal/j5s/sourcewalk/{service,topic}.go (names), internal/structure/build_package.go (addStructure, buildMethod, "
         "buildTopicMethod), internal/j5client/{package_from_source,list,j5package}.go (methodFromSource, fillRequest, "
         "buildListRequest, collectPackageRefs), lib/j5schema/schema_walk.go, lib/j5schema/schema_set.go (assertRefsLink), "
@@ -45,7 +45,8 @@ CONFIG = {
         "internal/export/swagger.go (addMethod: parameters, request body, response, path grouping), internal/export/convert.go (BuildSwagger, "
         "ConvertRootSchema, convertObjectItem / convertOneofItem property loops with map semantics; references as node indices: the "
         "`#/definitions/<package>.<schema>` string vs the `<package>.<key>` component key is tied by the source obligation C16_src_swagger_document "
-        "and by the stream's dangling-ref oracle), validated by the pipe.chain stream only",
+        "and by the stream's dangling-ref oracle; SwaggerProto.lean: the proto-level input type with the error / panic arms, `toProto` = API.ToJ5Proto() "
+        "pinned by the source obligation C16_src_to_j5_proto, not compared by the stream separately), validated by the pipe.chain stream only",
         "J5V/Compile/Entity.lean (+ SourceDef) of the compile cluster: the services an entity generates (query service, command services); "
         "validated differentially there (C17) and here through every chain op with an entity",
         "J5V/Compile/Strcase.lean (strcase v0.3.0 ToSnake / ToCamel, path.Join / path.Clean) - owned by the compile cluster, "
